@@ -7,7 +7,8 @@ names > i), a list of root fires and a task-set schedule:
    'roots': [[tick, nm], ...],       events fired by the harness right before tick `tick`
    'gen': 0|1,                       manager "running" (generate_events fired every tick; needed for timeouts)
    'rot': [r0, r1, ...],             tick t iterates the task set in insertion order rotated by rot[t % len]
-   'n': ticks to run}
+   'n': ticks to run,
+   'perturb': k}                     (optional) k dummy objects are allocated before the run: shifts addresses, hence set orders
   hspec: {'t': 'p', 'v': val|None, 'r': bool}                     plain handler: returns v or raises
          val: 1..9 (produced as v + 100*token) or a falsy non-None result 0 | False | '' (produced as it is)
          {'t': 'g', 'c': 0|1, 'st': [step, ...]}                  generator handler; c = catches TimeoutError
@@ -117,6 +118,9 @@ def enc_value(x):
 
 
 def run_case(case):
+    # allocation perturbation: shifts object addresses, hence the iteration order of the sets of (equal-priority) handlers
+    junk = [bytearray(17 * (i % 7 + 1)) for i in range(case.get('perturb', 0))]
+    junk2 = [object() for _ in range(case.get('perturb', 0) % 13)]
     log = []
     H = case['H']
     names = sorted(int(k) for k in H)
@@ -158,8 +162,9 @@ def run_case(case):
             r = registry.get(id(g))
             return [r[1], r[2], 0] if r else [0, 0, 3]
         r = registry.get(id(parent))
-        kind = 2 if getattr(getattr(g, 'gi_code', None), 'co_name', '') == '<genexpr>' else 1
-        return [r[1], r[2], kind] if r else [0, 0, 3]
+        # a suspended handler has at most one outstanding task of its own (its wait generator or its pending TimeoutError),
+        # so the task is named by its parent alone - no look at what kind of generator object the implementation uses for it
+        return [r[1], r[2], 1] if r else [0, 0, 3]
 
     def mk_gen(nm, i, hd):
         def fn(self, tok):
@@ -742,8 +747,16 @@ class C06(Prop):
                             kinds[key] = kinds.get(key, 0) + 1
                     else:
                         kinds['plain'] = kinds.get('plain', 0) + 1
+        # the same programs again after a different amount of dummy allocation (see run_case)
+        npert = 40 if tier != 'thorough' else 800
+        pert = []
+        for i in range(min(npert, len(cases))):
+            c = dict(cases[(i * 7) % len(cases)])
+            c['perturb'] = rng.choice([1, 3, 10, 50, 200, 1000])
+            pert.append(c)
+        cases = cases + pert
         mc = [dict(c) for c in self.MC]
-        self.stats = {'distribution': {'step_kinds': kinds, 'cases': len(cases), 'multi_channel_cases': len(mc),
+        self.stats = {'distribution': {'step_kinds': kinds, 'cases': len(cases), 'multi_channel_cases': len(mc), 'allocation_perturbed_copies': len(pert),
                                        'with_generate_events': len([c for c in cases if c['gen']]),
                                        'multi_root': len([c for c in cases if len(c['roots']) > 1]),
                                        'rotated_schedules': len([c for c in cases if c['rot'] != [0]])}}
